@@ -61,6 +61,20 @@ FloatInsts ==
   \cup {Inst("abin" \o op \o "-" \o MaskStr(m), Bin(op, ArgT(ArrLit(<<1>>), m[1], 1), ArgT(ArrLit(xs), m[2], 2)), IF op = "+" THEN WArr(WInt) ELSE WBool, {})
      : op \in {"+", "=="}, xs \in {<<>>, <<1>>, <<2, 3>>}, m \in Masks(2)}
 
+\* Chains x op c1 op c2 over floats whose rounding makes the grouping visible (1e16 + 1.0 + 1.0, 1e-200 * 1e200 * 1e200).
+\* The values are outside the machine's exact float domain, so the specification does not predict the result
+\* (inconclusive); the twins of one chain (same `group') must nevertheless all agree with each other, bit for bit.
+FBits(b) == [k |-> "float", bits |-> b]
+TyOfF == WFloat
+ArgF(v, lit, i) == IF lit THEN Lit(v) ELSE Tick(i, WFloat, Lit(v))
+ChainVals == [a |-> <<FBits("4846369599423283200"), FloatV(2), FloatV(2)>>,                                   \* 1e16, 1.0, 1.0
+              b |-> <<FBits("1614679632300144556"), FBits("7598952565167317594"), FBits("7598952565167317594")>>]  \* 1e-200, 1e200, 1e200
+ChainInsts ==
+  {[name |-> "fchain" \o op \o g \o "-" \o MaskStr(m), group |-> "fchain" \o op \o g,
+    e |-> Bin(op, Bin(op, ArgF(ChainVals[g][1], m[1], 1), ArgF(ChainVals[g][2], m[2], 2)), ArgF(ChainVals[g][3], m[3], 3)),
+    rty |-> WFloat, allow |-> {}]
+     : m \in Masks(3), op \in {"+", "*"}, g \in {"a", "b"}}
+
 UnaryInsts ==
   {Inst("neg" \o ToString(n) \o MaskStr(m), NegE(ArgT(IntV(n), m[1], 1)), WInt, {}) : n \in {0, 5, -3}, m \in Masks(1)}
   \cup {Inst("not" \o ToString(n) \o MaskStr(m), NotE(ArgT(IntV(n), m[1], 1)), WInt, {}) : n \in {0, 5, -1}, m \in Masks(1)}
@@ -106,8 +120,8 @@ DataInsts ==
              IF m[3] /\ m[4] THEN {"ZeroDivision"} ELSE {}) : m \in Masks(4)}
 
 \* ---------------------------------------------------------------- statement-level templates (whole programs)
-ProgCase(name, prog, allow) == [name |-> name, prog |-> prog, allow |-> allow, allowx |-> {}]
-ProgCaseX(name, prog, allow, allowx) == [name |-> name, prog |-> prog, allow |-> allow, allowx |-> allowx]
+ProgCase(name, prog, allow) == [name |-> name, prog |-> prog, allow |-> allow, allowx |-> {}, group |-> ""]
+ProgCaseX(name, prog, allow, allowx) == [name |-> name, prog |-> prog, allow |-> allow, allowx |-> allowx, group |-> ""]
 \* Named deviation of the implementation from the reference semantics (not covered by any listed property):
 \* creating a closure substitutes the captured values into its body and folds it, so a body operation that
 \* fails whenever it is evaluated surfaces as that documented run-time error when the closure is CREATED,
@@ -169,10 +183,13 @@ InCtx(t, ctx) ==
     [] ctx = "via-name" -> <<Set("r", Block(<<Set("tmp", t.e), V("tmp")>>)), V("r")>>
 
 ExprInsts == BinInsts \cup FloatInsts \cup UnaryInsts \cup LogicInsts \cup IndexInsts \cup DataInsts
-ExprCases == {[name |-> t.name \o "/" \o ctx, prog |-> InCtx(t, ctx), allow |-> t.allow, allowx |-> {}] : t \in ExprInsts, ctx \in Contexts}
+ExprCases == {[name |-> t.name \o "/" \o ctx, prog |-> InCtx(t, ctx), allow |-> t.allow, allowx |-> {}, group |-> ""] : t \in ExprInsts, ctx \in Contexts}
+ChainCases == {[name |-> t.name \o "/" \o ctx, prog |-> InCtx(t, ctx), allow |-> {}, allowx |-> {}, group |-> t.group \o "/" \o ctx]
+                 : t \in ChainInsts, ctx \in {"top", "fn"}}
 
 CaseSeq0 == SetToSeq(ExprCases) \o SetToSeq(CtlCases)
-CaseSeq == SelectSeq([i \in 1..Len(CaseSeq0) |-> IF i % SampleMod = 0 THEN CaseSeq0[i] ELSE NoneV], LAMBDA b : b # NoneV)
+ChainSeq == SetToSeq(ChainCases)
+CaseSeq == SelectSeq([i \in 1..Len(CaseSeq0) |-> IF i % SampleMod = 0 THEN CaseSeq0[i] ELSE NoneV], LAMBDA b : b # NoneV) \o ChainSeq
 N == Len(CaseSeq)
 Fuel == 2000
 Out(i) == Outcome(Run(CaseSeq[i].prog, Fuel))
@@ -203,7 +220,7 @@ Emit ==
   /\ TLCGet("stats").distinct > 0
   /\ ndJsonSerialize(IOEnv.VERIF_OUT \o "/c04_cases.ndjson",
         [i \in 1..N |-> [id |-> CaseSeq[i].name, suite |-> "c04", prog |-> CaseSeq[i].prog, exp |-> Out(i),
-                         allow_parse |-> SetToSeq(CaseSeq[i].allow),
+                         allow_parse |-> SetToSeq(CaseSeq[i].allow), group |-> CaseSeq[i].group,
                          allow_exec |-> SetToSeq(CaseSeq[i].allowx)]])
   /\ PrintT(<<"CASES", N, Len(CaseSeq0)>>)
 =============================================================================
